@@ -6,6 +6,7 @@ From Rustun Require Import Codec.Filter Codec.DecodeLoop Codec.FilterCase.
 From Rustun Require Import Base.Tlv Agent.Reasm Agent.ReasmDrive Agent.ReasmRs.
 From Rustun Require Import Agent.Rto Agent.Model Agent.Monitors.
 From Rustun Require Import Codec.Wire Codec.WireMon Codec.EncodeMsg.
+From Rustun Require Import Agent.ArcHeap Proofs.ArcHeapProofs.
 From Rustun Require Import Codec.AttrValue.
 Extraction Language OCaml.
 Extraction "model.ml"
@@ -14,4 +15,5 @@ Extraction "model.ml"
   Model.step Model.init Model.wire_type Monitors.monitor_step Monitors.mall0
   Wire.decode Wire.dec_ok_basic WireMon.monitor_C18 WireMon.monitor_C03dec WireMon.rfc_verdict
   EncodeMsg.encode_msg EncodeMsg.monitor_C14 EncodeMsg.msg_type_of
+  ArcHeap.heap0 ArcHeapProofs.outs_s ArcHeapProofs.outs_p ArcHeapProofs.wfb
   AttrValue.av_case_dec AttrValue.av_case_enc AttrValue.av_wf.
